@@ -1408,7 +1408,16 @@ def real_scenarios(res, pid, specs):
             elif r['old_worker_alive']:
                 alarm('C05:timed-out-worker-still-alive', 'the worker that ran the job still exists')
             if r['later'] != ['ok', 10]:
-                alarm('C05:pool-unusable-after-hard-limit', 'a later job on a %d-process pool: %s' % (sp.get('n', 1), r['later']))
+                if r.get('task_unread') is True:
+                    # nobody can read the task pipe any more: the timed-out worker went back to
+                    # waiting for tasks after the termination signal and was killed holding the
+                    # task queue's read lock (not the recorded KILL-during-exit race, where the
+                    # replacement worker does take the task and cannot answer)
+                    alarm('C05:pool-unusable-after-hard-limit-task-never-read',
+                          'a later job on a %d-process pool (timed-out task: %s) stays unread in the task pipe: %s'
+                          % (sp.get('n', 1), sp.get('task', 'sleep'), r['later']))
+                else:
+                    alarm('C05:pool-unusable-after-hard-limit', 'a later job on a %d-process pool: %s' % (sp.get('n', 1), r['later']))
         elif k == 'soft_timeout':
             if r['outcome'] != ['ok', 'caught']:
                 alarm('C06:real-soft-limit-not-raised-in-task', 'outcome %s' % r['outcome'])
